@@ -275,6 +275,7 @@ struct GenShapeOpts {
 	bool allowSpecialKinds = true; // dynamic, mesh-LOD, segmented, LOD
 	bool everyVertexWeighted = false;
 	uint32_t maxBones = 24;
+	uint32_t maxWeightsPerVert = 6;
 	MeshOpts mesh;
 };
 
@@ -460,7 +461,7 @@ inline GenShape buildGenShape(nifly::NifFile& nif, Tape& t, size_t vi, const std
 	// skin
 	const bool canSkin = o.allowSkin;
 	if (canSkin && !m.verts.empty() && m.verts.size() <= 3000 && t.coin()) {
-		g.skin = genSkin(t, static_cast<uint32_t>(m.verts.size()), o.maxBones, 6, o.everyVertexWeighted);
+		g.skin = genSkin(t, static_cast<uint32_t>(m.verts.size()), o.maxBones, o.maxWeightsPerVert, o.everyVertexWeighted);
 		applySkin(nif, g.shape, g.skin);
 		g.skinned = true;
 		g.kind += "+skin";
